@@ -888,6 +888,10 @@ def check_r125(fx, rep):
 
 def check(fx, rep, tier):
     check_r121(fx, rep)
+    # the writer files each row under the index and offset it is handed (shared with C05 R05.1)
+    from .c05 import check_row_as_handed
+
+    check_row_as_handed(fx, rep, "R12.1")
     check_r122(fx, rep)
     check_r123(fx, rep)
     check_r124(fx, rep)
